@@ -167,10 +167,29 @@ pub fn run_batch(spec: &BatchSpec) -> BatchResult {
     }
     let mut merged = WorkerOut::default();
     let mut distinct: HashMap<u64, u32> = HashMap::new();
+    // wall-clock guard: a worker that hangs (a thread blocked outside the simulator) must end as a
+    // harness error, never as a silent hang
+    let limit_s: u64 = std::env::var("VERIF_BATCH_TIMEOUT_S")
+        .ok()
+        .and_then(|s| s.parse().ok())
+        .unwrap_or(if spec.tier == "thorough" { 6 * 3600 } else { 1500 });
     for (mut child, out_path) in children {
-        let status = child
-            .wait()
-            .unwrap_or_else(|e| harness_error(&format!("worker wait: {}", e)));
+        let status = loop {
+            match child.try_wait() {
+                Ok(Some(st)) => break st,
+                Ok(None) => {
+                    if start.elapsed().as_secs() > limit_s {
+                        let _ = child.kill();
+                        harness_error(&format!(
+                            "worker for {} {} exceeded the wall-clock limit of {} s (blocked outside the simulator?)",
+                            spec.prop, spec.part, limit_s
+                        ));
+                    }
+                    std::thread::sleep(std::time::Duration::from_millis(20));
+                },
+                Err(e) => harness_error(&format!("worker wait: {}", e)),
+            }
+        };
         if !status.success() {
             harness_error(&format!(
                 "worker for {} {} exited with {}",
